@@ -15,6 +15,7 @@
 From Coq Require Import List ZArith NArith QArith String Ascii Bool Permutation.
 From Coq Require Sorted.
 From Qryn Require Import lib.Strs model.Sql model.Logql model.LogqlRegexp model.LogqlPlan model.SqlEval.
+From Qryn Require model.LogqlTemplate.
 Import ListNotations.
 Open Scope string_scope.
 
@@ -360,6 +361,75 @@ Section SEM2.
     negb (Nat.eqb (List.length (sel_matchers q)) 0)
     && forallb (fun s => is_filter s || is_json s || is_drop s || is_regexp s) (sel_pipeline q)
     && existsb (fun s => is_json s || is_drop s || is_regexp s) (sel_pipeline q).
+
+  (* ---------- `| line_format "tmpl"`: the LINE travels through the stages too ----------
+     The stage replaces the line by the output of the template executed over the CURRENT labels (Go text/template over the
+     label map: model/LogqlTemplate.v tpl_parse / tpl_exec - text is copied, {{.name}} prints the label, "" when absent); the
+     labels and the fingerprint stay. Every later stage reads the new line (line filters, json / regexp extraction) and the
+     query returns it. Templates whose execution has no plain reference value (field chains, the dot, pipes: tpl_exec = None,
+     or outside the transcribed part of the template language) are outside. run_stages / log_rows2 above keep their meaning:
+     they know no line_format (None); on a pipeline without one the two references coincide (log_rows3_no_lfmt). *)
+  Definition line_format_stage (tmpl : string) (st : pstate) : option string :=
+    match LogqlTemplate.tpl_parse tmpl with
+    | LogqlTemplate.TOk ns => LogqlTemplate.tpl_exec ns (p_labels st)
+    | _ => None
+    end.
+  Fixpoint run_lstages (ppl : list stage) (line : string) (st : pstate) : option (string * pstate) :=
+    match ppl with
+    | [] => Some (line, st)
+    | PLineFilter op v _ :: r => if line_ok re_match line op v then run_lstages r line st else None
+    | PLabelFilter f :: r => if lf_ok re_match parse_float (p_labels st) f then run_lstages r line st else None
+    | PParser PJson ps :: r => match json_stage ps line st with Some st' => run_lstages r line st' | None => None end
+    | PParser PRegexp ps :: r => match regexp_stage ps line st with Some st' => run_lstages r line st' | None => None end
+    | PDrop ps :: r => run_lstages r line (drop_stage ps st)
+    | PLineFormat t :: r => match line_format_stage t st with Some line' => run_lstages r line' st | None => None end
+    | _ :: _ => None
+    end.
+  Definition sample_out3 (q : strsel) (c : pctx) (d : database) (x : sample) : option outrow :=
+    let ls := series_labels d (x_fp x) in
+    if in_window c x && type_in c (x_type x) && forallb (matcher_ok re_match ls) (sel_matchers q) then
+      match run_lstages (sel_pipeline q) (x_line x) {| p_labels := ls; p_fp := x_fp x |} with
+      | Some (line, st) => Some {| o_fp := p_fp st; o_labels := p_labels st; o_line := line; o_ts := x_ts x |}
+      | None => None
+      end
+    else None.
+  Definition log_rows3 (q : strsel) (c : pctx) (d : database) : list outrow :=
+    flat_map (fun x => match sample_out3 q c d x with Some o => [o] | None => [] end) (d_samples d).
+  Definition logql_sem3 (q : strsel) (c : pctx) (d : database) (res : list outrow) : Prop :=
+    if Z.eqb (c_limit c) 0 then Permutation res (log_rows3 q c d)
+    else topk (c_asc c) (c_limit c) (log_rows3 q c d) res.
+
+  (* a line_format stage of the fragment: the template parses inside the transcribed part of text/template and every action
+     is one plain field {{.name}} (where executing the template has a reference value) *)
+  Definition tpl_plain (t : string) : bool :=
+    match LogqlTemplate.tpl_parse t with
+    | LogqlTemplate.TOk ns =>
+      forallb (fun n => match n with
+                        | LogqlTemplate.TText _ => true
+                        | LogqlTemplate.TAct [[LogqlTemplate.OF _ []]] => true
+                        | _ => false end) ns
+    | _ => false
+    end.
+  Definition is_lfmt (s : stage) : bool := match s with PLineFormat t => tpl_plain t | _ => false end.
+  (* no label filter stands between a line_format that is the first stage to need the labels and the first parser / drop:
+     the planners push such a filter down to the series table like the filters in front of the line_format (harmless - the
+     labels are not changed by line_format - but outside the proof) *)
+  Fixpoint lfmt_simple_ok (ppl : list stage) : bool :=
+    match ppl with
+    | [] => true
+    | s :: r =>
+      if is_relabel s then true
+      else match s with
+           | PLineFormat _ => negb (existsb is_label_filter (take_while (fun s' => negb (is_relabel s')) r))
+           | _ => lfmt_simple_ok r
+           end
+    end.
+  (* fragment 3: the stages of fragment 2 and line_format stages, in any order, at least one line_format *)
+  Definition in_fragment3 (q : strsel) : bool :=
+    negb (Nat.eqb (List.length (sel_matchers q)) 0)
+    && forallb (fun s => is_filter s || is_json s || is_drop s || is_regexp s || is_lfmt s) (sel_pipeline q)
+    && existsb is_lfmt (sel_pipeline q)
+    && lfmt_simple_ok (sel_pipeline q).
 End SEM2.
 
 (* "the SQL of q, executed over d, is the reference answer": the planners produce a SELECT, it evaluates
@@ -380,6 +450,15 @@ Definition log_correct2 {RG : ReGroups} (re_match : string -> string -> bool) (p
     /\ eval re_match parse_float json_get hash_labels tie (to_sqldb c d) sel = Some rows
     /\ map row_out rows = map Some outs
     /\ logql_sem2 re_match parse_float json_get hash_labels q c d outs.
+
+Definition log_correct3 {RG : ReGroups} (re_match : string -> string -> bool) (parse_float : string -> option Q)
+    (json_get : string -> list string -> string) (hash_labels : labels -> Z)
+    (tie : forall A : Type, list A -> list A) (q : strsel) (c : pctx) (d : database) : Prop :=
+  exists sel rows outs,
+    log_select q c = Some sel
+    /\ eval re_match parse_float json_get hash_labels tie (to_sqldb c d) sel = Some rows
+    /\ map row_out rows = map Some outs
+    /\ logql_sem3 re_match parse_float json_get hash_labels q c d outs.
 
 (* Plan(script, false).Process(ctx): the SELECT whose rows feed the in-process engine when the pipeline has a stage that is
    not planned in SQL (logql_transpiler_v2.Plan breaks the script in front of it and plans the prefix without LIMIT; the
